@@ -67,6 +67,21 @@ def close(x, q, tol=TOL, scale=1.0, floor=1.0):
     return abs(x - float(q)) <= tol * max(floor, abs(float(q)), scale)
 
 
+def pdriver(pid, reqs, jobs=4):
+    """common.driver on up to `jobs` interleaved chunks in parallel (the exact Gauss-Jordan of the
+    model dominates the thorough tier); answers in request order"""
+    if len(reqs) < 200:
+        return common.driver(pid, reqs)
+    from concurrent.futures import ThreadPoolExecutor
+    chunks = [reqs[k::jobs] for k in range(jobs)]
+    with ThreadPoolExecutor(jobs) as ex:
+        outs = list(ex.map(lambda ch: common.driver(pid, ch), chunks))
+    ans = [None] * len(reqs)
+    for k, out in enumerate(outs):
+        ans[k::jobs] = out
+    return ans
+
+
 def quiet(f, *a, **k):
     with contextlib.redirect_stdout(io.StringIO()), warnings.catch_warnings():
         warnings.simplefilter("ignore")
@@ -475,20 +490,20 @@ UPDATE_HOWS = ["float64", "float64", "float32", "int", "list", "held-inplace", "
                "held-inplace", "caller-inplace"]
 
 
-def gen_history(c, rng, length):
+def gen_history(c, rng, length, echo=True):
     """list of ops: ('U', res, how) | (code,) | (code, i) | (code, i, j) with the codes of
     QUERY_NAMES.  `how` says which array object carries the new resistances (see Live.apply)."""
     ops = []
     cur = c.res
     n = c.n
-    if rng.random() < 0.5 and length >= 3:
+    if echo and rng.random() < 0.5 and length >= 3:
         # "echo" history: queries, an update, the same queries again (anything a query stored
         # before the update is asked for after it), possibly twice
-        qs = [op for op in gen_history(c, rng, max(1, (length - 1) // 2))
+        qs = [op for op in gen_history(c, rng, max(1, (length - 1) // 2), echo=False)
               if op[0] not in ("U", "UA", "UR")] or [("D",)]
         ops = list(qs)
         for _ in range(rng.choice([1, 1, 2])):
-            up = [op for op in gen_history(c, rng, 12) if op[0] == "U"][:1] or \
+            up = [op for op in gen_history(c, rng, 12, echo=False) if op[0] == "U"][:1] or \
                 [("U", draw_res(n, c.A, rng, "dyadic"), "float64")]
             if up[0][2] in ("held-inplace", "caller-inplace") and rng.random() < 0.5:
                 up = [("U", draw_res(n, c.A, rng, "dyadic"), up[0][2])]
@@ -743,7 +758,7 @@ def run(ctx):
     # A. implementation vs Lean model vs exact oracle, all observables
     # ------------------------------------------------------------------
     reqs = [f"net {c.n} {enc_adj(c.A)} {enc_mat(c.res)}" for c in cases]
-    model = common.driver(ctx.pid, reqs)
+    model = pdriver(ctx.pid, reqs)
     bad = []
     nobs = 0
     selfbad = []
@@ -805,7 +820,7 @@ def run(ctx):
         Is, It = rng.choice([(1, 1), (2, 1), (1, 0), (0.5, 3), (0, 1)])
         kernel_case(K, n, Is, It, a32, r32, kreqs, kimpl, kmeta, "random-asymmetric")
         ctx.count("kernel:random-asymmetric-dyadic")
-    kans = common.driver(ctx.pid, kreqs)
+    kans = pdriver(ctx.pid, kreqs)
     kbad = []
     for req, got, ans, meta in zip(kreqs, kimpl, kans, kmeta):
         exact = p_vec(ans) if meta[0] == "vcfb" else [x for r in p_mat(ans) for x in r]
@@ -847,7 +862,7 @@ def run(ctx):
         hcases.append((c, gen_history(c, rng, rng.randrange(2, 9 if quick else 14))))
     hreqs = [" ".join(["hist", str(c.n), enc_adj(c.A), enc_mat(c.res)] + [enc_op(op) for op in ops])
              for c, ops in hcases]
-    hans = common.driver(ctx.pid, hreqs)
+    hans = pdriver(ctx.pid, hreqs)
     hbad = []
     nsteps = 0
     for (c, ops), ans in zip(hcases, hans):
